@@ -290,7 +290,8 @@ func (rp *RelyingParty) VerifyRegistrationCeremony(
 
 	// 15. If user verification is required for this registration, verify that the User Verified bit of the flags in
 	//     authData is set.
-	if creationOptions.AuthenticatorSelection.UserVerification == UserVerificationRequired &&
+	if creationOptions.AuthenticatorSelection != nil &&
+		creationOptions.AuthenticatorSelection.UserVerification == UserVerificationRequired &&
 		!authenticatorData.Flags.UserVerified() {
 		return nil, fmt.Errorf("user not verified in authenticator data")
 	}
